@@ -74,6 +74,7 @@ type Contract struct {
 	SplitVars    []Clause        // function-level `splitvar`: case split on the skolemised bound variable of quantified ensures (proof search only)
 	UseViews     map[string]bool // `use-view NAME`: the caller imports the callee ensures of that view
 	Inline       map[string]bool // `inline F`: calls of F in this theorem execute F's body instead of using its contract
+	MapWitness   bool            // `map-witness`: len(m) != 0 names a key of m (a fact about len's exactness; opt-in because the extra ground term costs solver time elsewhere)
 	BranchSplit  bool            // `branch-split`: an obligation the solvers leave undecided is retried per branch of the enclosing ifs (proof search only)
 	Sequential   bool            // `sequential`: later invariant / ensures clauses may assume earlier ones (each stays an obligation of its own)
 	CasesElse    bool            // `cases e in lo..hi else`: one more run for e outside lo..hi (then no coverage obligation is needed)
@@ -345,7 +346,7 @@ func (e *Engine) scanGlobals() {
 var clauseKeywords = map[string]bool{"func": true, "theorem": true, "global": true, "props": true, "requires": true,
 	"ensures": true, "panics": true, "modifies": true, "decreases": true, "yields": true, "loop": true, "invariant": true,
 	"let": true, "split": true, "mode": true, "established-by": true, "thin": true, "trusted": true, "assert": true,
-	"ensures-notrace": true, "modifies-heap": true, "witness": true, "callback": true, "readonly-heap": true, "fresh-result": true, "pure": true, "splitvar": true, "snapshot": true, "snapshot-after": true, "use-lemma": true, "cases": true, "sequential": true, "branch-split": true, "inline": true, "ensures-view": true, "use-view": true}
+	"ensures-notrace": true, "modifies-heap": true, "witness": true, "callback": true, "readonly-heap": true, "fresh-result": true, "pure": true, "splitvar": true, "snapshot": true, "snapshot-after": true, "use-lemma": true, "cases": true, "sequential": true, "branch-split": true, "map-witness": true, "inline": true, "ensures-view": true, "use-view": true}
 
 type rawClause struct {
 	kw   string
@@ -512,6 +513,8 @@ func (e *Engine) loadContracts() error {
 						cur.Sequential = true
 					case "branch-split":
 						cur.BranchSplit = true
+					case "map-witness":
+						cur.MapWitness = true
 					case "inline":
 						if cur.Inline == nil {
 							cur.Inline = map[string]bool{}
